@@ -16,7 +16,8 @@ RULE = ("view trees drawn from one PRNG (VERIF_SEED) over the grammar text (incl
         "static element, depth <= 4, nested so that the HTML content model allows it (nothing that closes an open "
         "<p> inside a <p>); ~3% deliberately mis-nested views (kind invalid-nesting: compared with the model, the "
         "oracle does not demand success). Every case carries a second view (a mutation of the first or a fresh one) "
-        "for the post-hydration rebuild. A case is non-trivial when its DOM has at least 3 nodes and the walk has to "
+        "for the post-hydration rebuild; every tenth view is also rendered through to_html_stream_in_order / "
+        "_out_of_order (kind streamed-forms) and the concatenated chunks compared with to_html(). A case is non-trivial when its DOM has at least 3 nodes and the walk has to "
         "consume at least one marker/separator comment or descend into an element; distinct = distinct case hash.")
 TRUSTED = [
     "Coq 8.16.1 kernel (coqc); no axioms: every theorem of Properties_C05.v is 'Closed under the global context'",
@@ -301,6 +302,8 @@ def inert_shape_ok(d, top=False):
 
 def valid_case(item):
     c = item["case"]
+    if item.get("kind") == "streamed-forms":
+        return isinstance(c, list) and len(c) == 2 and c[0] == 1 and shape_ok(c[1])
     if not (isinstance(c, list) and len(c) == 3 and c[0] == 0):
         return False
     if not (shape_ok(c[1]) and shape_ok(c[2])):
@@ -325,11 +328,21 @@ def generate(rng, tier):
             v2 = [0, b("z")]
         kind = "hydrate" if ok else "invalid-nesting"
         yield dict(case=[0, v, v2], kind=kind, compare=True)
+        if i % 10 == 0:
+            yield dict(case=[1, v], kind="streamed-forms", compare=True)
 
 
 def oracle(item, impl):
     if isinstance(impl, str):
         return "harness error / panic outside hydrate: " + impl[:200]
+    if item.get("kind") == "streamed-forms":
+        if len(impl) != 3:
+            return "malformed observation"
+        if impl[1] != 1:
+            return "the in-order streamed form of a view without asynchronous parts differs from to_html()"
+        if impl[2] != 1:
+            return "the out-of-order streamed form of a view without asynchronous parts differs from to_html()"
+        return None
     if item.get("kind") == "invalid-nesting":
         return None          # mis-nested markup: a browser re-parents, hydration may legitimately fail
     if len(impl) >= 2 and impl[1] == [-1]:
@@ -358,7 +371,7 @@ def oracle(item, impl):
 
 
 def nontrivial(item, model):
-    if isinstance(model, str) or len(model) < 3:
+    if isinstance(model, str) or len(model) < 3 or item.get("kind") == "streamed-forms":
         return False
     tree = model[1]
 
@@ -418,6 +431,8 @@ def _show_dom(d):
 
 def describe(it):
     c = it["case"]
+    if c[0] == 1:
+        return "streamed forms of %s" % _show(c[1])
     return "hydrate %s ; then rebuild with %s" % (_show(c[1]), _show(c[2]))
 
 
@@ -434,7 +449,8 @@ def coverage_extra(results):
                     walk(k)
             elif v[0] in (5, 7, 8, 10):
                 walk(v[1])
-        walk(r["item"]["case"][1])
+        if r["item"]["case"][0] == 0:
+            walk(r["item"]["case"][1])
     names = {0: "text", 1: "unit", 2: "element", 3: "void", 4: "tuple", 5: "some", 6: "none", 7: "left", 8: "right",
              9: "vec", 10: "any", 11: "keyed", 12: "inert", 13: "integer"}
     return {"view_nodes_by_kind": {names.get(k, str(k)): n for k, n in sorted(feats.items())},
